@@ -60,6 +60,8 @@ pub struct RunInfo {
     pub cycle_refusals: usize,
     pub sem_diag_kinds: BTreeSet<String>,
     pub panic_msg: Option<String>,
+    /// signatures of failing soft oracles of properties other than the one under check
+    pub other_failures: Vec<String>,
 }
 
 fn viol(oracle: &'static str, props: &[&'static str], class: &str, detail: String) -> Verdict {
@@ -69,6 +71,34 @@ fn viol(oracle: &'static str, props: &[&'static str], class: &str, detail: Strin
         signature: format!("{}/{}", oracle, class),
         detail,
     })
+}
+
+
+// A failing oracle that belongs to the property under check (or any failing oracle when no focus
+// is given) ends the judgement. A failing "soft" oracle of another property is noted and
+// evaluation continues, so that e.g. a wrong lexical range (G1, C11) does not hide the span check
+// of the same diagnostic (S1, C12).
+macro_rules! soft {
+    ($info:ident, $focus:ident, $v:expr) => {{
+        let v = $v;
+        if let Verdict::Violation(x) = &v {
+            if $focus.is_none_or(|f| x.props.iter().any(|p| *p == f)) {
+                return (v, $info);
+            }
+            $info.other_failures.push(x.signature.clone());
+        }
+    }};
+}
+macro_rules! soft_f {
+    ($info:ident, $focus:ident, $v:expr) => {{
+        let v = $v;
+        if let Verdict::Violation(x) = &v {
+            if $focus.is_none_or(|f| x.props.iter().any(|p| *p == f)) {
+                return Some(v);
+            }
+            $info.other_failures.push(x.signature.clone());
+        }
+    }};
 }
 
 const C18: &[&str] = &["C18"];
@@ -182,7 +212,7 @@ fn names_declared_in(text: &str, out: &mut BTreeSet<String>) {
 
 /// Judge one executed run. `prop` selects nothing here: all oracles are evaluated in a fixed
 /// order and the first failing one is returned with the properties it belongs to.
-pub fn judge(w: &World, run: &Run) -> (Verdict, RunInfo) {
+pub fn judge(w: &World, run: &Run, focus: Option<&str>) -> (Verdict, RunInfo) {
     let mut info = RunInfo {
         seam_calls: run.history.len(),
         history_shape: history_shape(&run.history),
@@ -418,6 +448,7 @@ pub fn judge(w: &World, run: &Run) -> (Verdict, RunInfo) {
         i: usize,
         f: &SynFile,
         info: &mut RunInfo,
+        focus: Option<&str>,
     ) -> Option<Verdict> {
         let inst = &m.insts[i];
         if f.children.len() != inst.children.len() {
@@ -486,7 +517,7 @@ pub fn judge(w: &World, run: &Run) -> (Verdict, RunInfo) {
                 // G1: tree iff no lexical diagnostic
                 let lex_clean = facts.lex.is_empty();
                 if f.have_parse != lex_clean {
-                    return Some(viol(
+                    soft_f!(info, focus, viol(
                         "G1",
                         C11,
                         "tree-iff-no-lexical-diagnostic",
@@ -502,7 +533,7 @@ pub fn judge(w: &World, run: &Run) -> (Verdict, RunInfo) {
                     let got: Vec<(usize, usize)> = f.errors.iter().map(|e| (e.start, e.end)).collect();
                     let want: Vec<(usize, usize)> = facts.lex.iter().map(|e| (e.0, e.1)).collect();
                     if got != want {
-                        return Some(viol(
+                        soft_f!(info, focus, viol(
                             "G1",
                             C11,
                             "lexical-diagnostics-only",
@@ -529,7 +560,7 @@ pub fn judge(w: &World, run: &Run) -> (Verdict, RunInfo) {
                 for e in &f.errors {
                     info.s1_checked += 1;
                     if !span_ok(text, e.start, e.end) {
-                        return Some(viol(
+                        soft_f!(info, focus, viol(
                             "S1",
                             C12,
                             "syntax-span",
@@ -550,7 +581,7 @@ pub fn judge(w: &World, run: &Run) -> (Verdict, RunInfo) {
                 if f.have_parse {
                     if let Some(l) = f.tree_text_len {
                         if l != text.len() {
-                            return Some(viol(
+                            soft_f!(info, focus, viol(
                                 "S1",
                                 C12,
                                 "tree-length",
@@ -559,7 +590,7 @@ pub fn judge(w: &World, run: &Run) -> (Verdict, RunInfo) {
                         }
                     }
                     if f.has_error_node && f.errors.is_empty() {
-                        return Some(viol(
+                        soft_f!(info, focus, viol(
                             "S3",
                             C12,
                             "error-node-without-diagnostic",
@@ -570,13 +601,13 @@ pub fn judge(w: &World, run: &Run) -> (Verdict, RunInfo) {
             }
         }
         for (k, c) in inst.children.iter().enumerate() {
-            if let Some(v) = walk_files(m, *c, &f.children[k], info) {
+            if let Some(v) = walk_files(m, *c, &f.children[k], info, focus) {
                 return Some(v);
             }
         }
         None
     }
-    if let Some(v) = walk_files(&m, 0, &obs.files, &mut info) {
+    if let Some(v) = walk_files(&m, 0, &obs.files, &mut info, focus) {
         return (v, info);
     }
 
@@ -593,8 +624,7 @@ pub fn judge(w: &World, run: &Run) -> (Verdict, RunInfo) {
                     if let Some(facts) = &inst.facts {
                         info.g3_checked += 1;
                         if !facts.lex.iter().any(|e| e.0 == *lexeme_start) {
-                            return (
-                                viol(
+                            soft!(info, focus, viol(
                                     "G3",
                                     C11,
                                     &format!("undiagnosed/{}", class),
@@ -603,9 +633,7 @@ pub fn judge(w: &World, run: &Run) -> (Verdict, RunInfo) {
                                         d.path, d.at, class, lexeme_start,
                                         facts.lex.iter().map(|e| e.0).collect::<Vec<_>>()
                                     ),
-                                ),
-                                info,
-                            );
+                                ));
                         }
                     }
                 }
@@ -706,15 +734,12 @@ pub fn judge(w: &World, run: &Run) -> (Verdict, RunInfo) {
     let robs = match &r.result {
         RunResult::Returned(o) => o,
         RunResult::Panic(msg) => {
-            return (
-                viol(
+            return (viol(
                     "R3",
                     C18,
                     &format!("reference-panics/{}", panic_class(msg)),
                     format!("the project is analysed without panic but its textual inclusion panics: {}", msg),
-                ),
-                info,
-            )
+                ), info);
         }
         RunResult::Budget => return (Verdict::Skip("reference_budget"), info),
     };
@@ -744,8 +769,7 @@ pub fn judge(w: &World, run: &Run) -> (Verdict, RunInfo) {
         let a = obs.program.stmts();
         let b = robs.program.stmts();
         let first = a.iter().zip(b.iter()).position(|(x, y)| x != y).unwrap_or(a.len().min(b.len()));
-        return (
-            viol(
+        soft!(info, focus, viol(
                 "R3",
                 C18,
                 "program",
@@ -753,20 +777,15 @@ pub fn judge(w: &World, run: &Run) -> (Verdict, RunInfo) {
                     "program() has {} statements, textual inclusion gives {}; first difference at statement #{}:\n  got      {:?}\n  expected {:?}",
                     a.len(), b.len(), first, a.get(first), b.get(first)
                 ),
-            ),
-            info,
-        );
+            ));
     }
     if obs.symtab != robs.symtab {
-        return (
-            viol(
+        soft!(info, focus, viol(
                 "R3",
                 C18,
                 "symbol-table",
                 "symbol_table() differs from the one textual inclusion gives".into(),
-            ),
-            info,
-        );
+            ));
     }
 
     // ------------------------------------------------------------------ R4 diagnostics per file
@@ -788,18 +807,27 @@ pub fn judge(w: &World, run: &Run) -> (Verdict, RunInfo) {
     }
     for (k, i) in order.iter().enumerate() {
         if !m.insts[*i].tags_ok.contains(&lists[k].tag) {
-            return (
-                viol(
-                    "R4",
-                    C18,
-                    "list-tag",
-                    format!(
-                        "diagnostic list #{} is tagged `{}`, expected one of {:?}",
-                        k, lists[k].tag, m.insts[*i].tags_ok
-                    ),
+            soft!(info, focus, viol(
+                "R4",
+                C18,
+                "list-tag",
+                format!(
+                    "diagnostic list #{} is tagged `{}`, expected one of {:?}",
+                    k, lists[k].tag, m.insts[*i].tags_ok
                 ),
-                info,
-            );
+            ));
+            // C12: the diagnostics in this list refer to the text of the file named by the tag
+            if !lists[k].diags.is_empty() {
+                soft!(info, focus, viol(
+                    "S2",
+                    C12,
+                    "filed-under-wrong-path",
+                    format!(
+                        "{} diagnostics whose ranges fit the text of {:?} are filed under `{}`, which does not name that file",
+                        lists[k].diags.len(), m.insts[*i].tags_ok.first(), lists[k].tag
+                    ),
+                ));
+            }
         }
     }
     // expected diagnostics per instance: reference diagnostics mapped through the segment map
@@ -888,8 +916,7 @@ pub fn judge(w: &World, run: &Run) -> (Verdict, RunInfo) {
             rest.push(d.clone());
         }
         if let Some((us, ue)) = my_unusable.first() {
-            return (
-                viol(
+            soft!(info, focus, viol(
                     "R4",
                     C18,
                     "unusable-include-unreported",
@@ -897,9 +924,7 @@ pub fn judge(w: &World, run: &Run) -> (Verdict, RunInfo) {
                         "list `{}`: the include statement at {}..{} has no usable path and is neither expanded nor reported",
                         lists[k].tag, us, ue
                     ),
-                ),
-                info,
-            );
+                ));
         }
         // a failing site must be reported exactly once, in the parent's or the child's list
         for site in my_fail {
@@ -910,8 +935,7 @@ pub fn judge(w: &World, run: &Run) -> (Verdict, RunInfo) {
                     && if site.2.kind.is_empty() { is_failure_kind(&d.kind) } else { site.2.kind == d.kind }
             });
             if !in_child {
-                return (
-                    viol(
+                soft!(info, focus, viol(
                         "R4",
                         C18,
                         "read-failure-unreported",
@@ -922,15 +946,12 @@ pub fn judge(w: &World, run: &Run) -> (Verdict, RunInfo) {
                             if site.2.kind.is_empty() { "read-failure" } else { &site.2.kind },
                             site.2.start, site.2.end
                         ),
-                    ),
-                    info,
-                );
+                    ));
             }
         }
         if rest != expected[*i] {
             let first = rest.iter().zip(expected[*i].iter()).position(|(a, b)| a != b).unwrap_or(rest.len().min(expected[*i].len()));
-            return (
-                viol(
+            soft!(info, focus, viol(
                     "R4",
                     C18,
                     "diagnostics",
@@ -938,20 +959,15 @@ pub fn judge(w: &World, run: &Run) -> (Verdict, RunInfo) {
                         "list `{}`: {} diagnostics, textual inclusion gives {} for this file; first difference at #{}: got {:?}, expected {:?}",
                         lists[k].tag, rest.len(), expected[*i].len(), first, rest.get(first), expected[*i].get(first)
                     ),
-                ),
-                info,
-            );
+                ));
         }
         if !positions_ok {
-            return (
-                viol(
+            soft!(info, focus, viol(
                     "R4",
                     C18,
                     "read-failure-position",
                     format!("list `{}`: a read-failure diagnostic is not filed at the position of its include statement", lists[k].tag),
-                ),
-                info,
-            );
+                ));
         }
     }
 
@@ -963,8 +979,7 @@ pub fn judge(w: &World, run: &Run) -> (Verdict, RunInfo) {
                 for d in &lists[k].diags {
                     info.s2_checked += 1;
                     if !span_ok(t, d.start, d.end) {
-                        return (
-                            viol(
+                        soft!(info, focus, viol(
                                 "S2",
                                 C12,
                                 "semantic-span",
@@ -972,13 +987,10 @@ pub fn judge(w: &World, run: &Run) -> (Verdict, RunInfo) {
                                     "list `{}` (text length {}): {} has range {}..{}",
                                     lists[k].tag, t.len(), d.kind, d.start, d.end
                                 ),
-                            ),
-                            info,
-                        );
+                            ));
                     }
                     if d.text.as_deref() != Some(&t[d.start..d.end]) {
-                        return (
-                            viol(
+                        soft!(info, focus, viol(
                                 "S2",
                                 C12,
                                 "node-text",
@@ -986,13 +998,10 @@ pub fn judge(w: &World, run: &Run) -> (Verdict, RunInfo) {
                                     "list `{}`: {} at {}..{} prints node text {:?}, the file has {:?} there",
                                     lists[k].tag, d.kind, d.start, d.end, d.text, &t[d.start..d.end]
                                 ),
-                            ),
-                            info,
-                        );
+                            ));
                     }
                     if facts.node_ranges.binary_search(&(d.start, d.end)).is_err() {
-                        return (
-                            viol(
+                        soft!(info, focus, viol(
                                 "S2",
                                 C12,
                                 "not-a-node",
@@ -1000,9 +1009,7 @@ pub fn judge(w: &World, run: &Run) -> (Verdict, RunInfo) {
                                     "list `{}`: {} has range {}..{}, which is not the range of a node of that file's tree",
                                     lists[k].tag, d.kind, d.start, d.end
                                 ),
-                            ),
-                            info,
-                        );
+                            ));
                     }
                     if d.end == t.len() {
                         info.diag_at_eof += 1;
@@ -1014,8 +1021,7 @@ pub fn judge(w: &World, run: &Run) -> (Verdict, RunInfo) {
             }
             _ => {
                 if !lists[k].diags.is_empty() {
-                    return (
-                        viol(
+                    soft!(info, focus, viol(
                             "S2",
                             C12,
                             "diagnostic-without-text",
@@ -1023,9 +1029,7 @@ pub fn judge(w: &World, run: &Run) -> (Verdict, RunInfo) {
                                 "list `{}` belongs to a file that was not read, yet holds {} diagnostics whose ranges refer to no text",
                                 lists[k].tag, lists[k].diags.len()
                             ),
-                        ),
-                        info,
-                    );
+                        ));
                 }
             }
         }
@@ -1041,8 +1045,7 @@ pub fn judge(w: &World, run: &Run) -> (Verdict, RunInfo) {
                     .filter(|d| d.kind == "IncludeNotInGlobalScopeError" && d.start == *s && d.end == *e)
                     .count();
                 if n != 1 {
-                    return (
-                        viol(
+                    soft!(info, focus, viol(
                             "R8",
                             C18,
                             "nested-include-report",
@@ -1050,9 +1053,7 @@ pub fn judge(w: &World, run: &Run) -> (Verdict, RunInfo) {
                                 "list `{}`: include statement below global scope at {}..{} is reported {} times",
                                 lists[k].tag, s, e, n
                             ),
-                        ),
-                        info,
-                    );
+                        ));
                 }
             }
         }
@@ -1076,8 +1077,7 @@ pub fn judge(w: &World, run: &Run) -> (Verdict, RunInfo) {
                 Err(_) => false,
             };
             if !ok {
-                return (
-                    viol(
+                soft!(info, focus, viol(
                         "R6",
                         C18,
                         "standard-gate",
@@ -1085,9 +1085,7 @@ pub fn judge(w: &World, run: &Run) -> (Verdict, RunInfo) {
                             "after `include \"stdgates.inc\";` the name `{}` does not resolve to a gate with {} parameters and {} qubits",
                             name, np, nq
                         ),
-                    ),
-                    info,
-                );
+                    ));
             }
         }
     }
@@ -1104,8 +1102,7 @@ pub fn judge(w: &World, run: &Run) -> (Verdict, RunInfo) {
     }
     if let Some(c) = count {
         if obs.program.stmts().len() != c {
-            return (
-                viol(
+            soft!(info, focus, viol(
                     "G2",
                     C11,
                     "analysis-ran",
@@ -1113,9 +1110,7 @@ pub fn judge(w: &World, run: &Run) -> (Verdict, RunInfo) {
                         "no file has a syntax diagnostic; the project spells {} statements that yield a graph statement, program() has {}",
                         c, obs.program.stmts().len()
                     ),
-                ),
-                info,
-            );
+                ));
         }
     }
 
